@@ -157,7 +157,8 @@ def gridDiskDistancesSafe (origin : BitVec 64) (k : Int) : R (Array (BitVec 64) 
 
 /-- `gridRingUnsafe`: (error?, cells written) -/
 def gridRingUnsafe (origin : BitVec 64) (k : Int) : Option H3Error × Array (BitVec 64) :=
-  if k == 0 then (none, #[origin])
+  if k < 0 then (some .domain, #[])
+  else if k == 0 then (none, #[origin])
   else if isPentagon origin then (some .pentagon, #[])
   else
     let kk := k.toNat   -- k < 0: both loops are empty in C
